@@ -70,24 +70,34 @@ class Interp:
 
     # ---- functions ------------------------------------------------------------------------------
     def call_fn(self, f, args):
-        env = {}
-        for prm, a in zip(f.params, args):
-            env[prm['id']] = a
-        try:
-            self.stmt(f.body, env)
-        except Ret as r:
-            return r.v
-        return None
+        return self.call_fn_env(f, args, {})
 
     def call_fn_env(self, f, args, env0):
         env = dict(env0)
         for prm, a in zip(f.params, args):
             env[prm['id']] = a
+        self.last_env = env
+        rv = None
         try:
             self.stmt(f.body, env)
         except Ret as r:
-            return r.v
-        return None
+            rv = r.v
+        self.last_env = env       # the finished callee's bindings: out-parameters are copied back by the caller
+        return rv
+
+    def _copy_back(self, f, argexprs, cenv, env):
+        """non-const reference parameters that the callee assigned as a whole: the caller's lvalue receives the final value"""
+        for prm, a in zip(f.params, argexprs):
+            t = (prm.get('type') or '').strip()
+            if t.endswith('&') and not t.startswith('const') and prm.get('id') in cenv:
+                a0 = SX.strip(a)
+                if SX.is_node(a0) and a0.get('k') in ('ref', 'member', 'index'):
+                    try:
+                        cur = self.expr(a0, env)
+                    except (Unsupported, OutOfRange):
+                        continue
+                    if cenv[prm['id']] is not cur:
+                        self.store(a0, cenv[prm['id']], env)
 
     # ---- statements -----------------------------------------------------------------------------
     def stmt(self, s, env):
@@ -434,12 +444,18 @@ class Interp:
                     o = SX.strip(e['obj'])
                     if SX.is_node(o) and o.get('k') == 'this':
                         if 'this' in env:
-                            return self.call_fn_env(fs[0], args, {'this': env['this']})
+                            rv_ = self.call_fn_env(fs[0], args, {'this': env['this']})
+                            self._copy_back(fs[0], SX.real_args(e), self.last_env, env)
+                            return rv_
                     else:
                         ov = self.expr(e['obj'], env)
                         if isinstance(ov, Obj):
-                            return self.call_fn_env(fs[0], args, {'this': ov})
-                return self.call_fn(fs[0], args)
+                            rv_ = self.call_fn_env(fs[0], args, {'this': ov})
+                            self._copy_back(fs[0], SX.real_args(e), self.last_env, env)
+                            return rv_
+                rv_ = self.call_fn(fs[0], args)
+                self._copy_back(fs[0], SX.real_args(e), self.last_env, env)
+                return rv_
             if k == 'call' and not SX.callee(e) and SX.is_node(e.get('calleeExpr')):
                 # call through a closure-valued expression (generic lambdas: `op(a, b)` with op a parameter)
                 cv = self.expr(e['calleeExpr'], env)
